@@ -90,6 +90,7 @@ class Effects:
         self.roots: Dict[FuncInfo, Dict[str, Set]] = {}
         self.handlers_of: Dict[FuncInfo, Dict[ast.AST, List[List[str]]]] = {}
         self.returns_fresh: Dict[FuncInfo, bool] = {}
+        self.return_roots: Dict[FuncInfo, Optional[Set]] = {}     # roots of the returned values in the callee's own terms (None: no summary)
         self.pm: Dict[FuncInfo, Dict[ast.AST, ast.AST]] = {}
         for f in self.cg.all_functions():
             self._local(f)
@@ -214,16 +215,26 @@ class Effects:
         # returns_fresh: every return value is a fresh object (constructor call / fresh call / local fresh var)
         for f in self.cg.all_functions():
             self.returns_fresh[f] = False
+            self.return_roots[f] = None
         for _ in range(6):
             changed = False
             for f in self.cg.all_functions():
                 self._compute_var_roots(f)
-                rets = [n for n in walk_local(f.node, include_root=False) if isinstance(n, ast.Return)]
+                body = list(walk_local(f.node, include_root=False))
+                rets = [n for n in body if isinstance(n, ast.Return)]
                 vals = [r.value for r in rets if r.value is not None and not (isinstance(r.value, ast.Constant) and r.value.value is None)]
                 val = bool(vals) and all(self.expr_roots(f, v) == {'fresh'} for v in vals)
                 if val != self.returns_fresh[f]:
                     self.returns_fresh[f] = val
                     changed = True
+                # summary of the returned objects (plain functions and methods only: no generators, no nested closures)
+                if vals and f.parent is None and not any(isinstance(n, (ast.Yield, ast.YieldFrom)) for n in body):
+                    rr = set()
+                    for v in vals:
+                        rr |= self.expr_roots(f, v)
+                    if rr != self.return_roots[f]:
+                        self.return_roots[f] = rr
+                        changed = True
             if not changed:
                 break
         for f in self.cg.all_functions():
@@ -444,6 +455,9 @@ class Effects:
             callees = {x.callee for x in edges if x.kind in ('call', 'super')}
             if callees and all(self.returns_fresh.get(c, False) for c in callees) and not (kinds & {'new'}):
                 return {'fresh'}
+            summ = self._call_result_from_summary(f, e, edges)
+            if summ is not None:
+                return summ or self._dflt()
             if isinstance(e.func, ast.Attribute):
                 # method result: reachable from the receiver (get_parent(), get_children(), iterate_leaves(), ...)
                 out = self._derive(self.expr_roots(f, e.func.value), e)
@@ -472,6 +486,54 @@ class Effects:
         if isinstance(e, ast.Lambda):
             return {'const'}
         return {'unknown'}
+
+    def _call_result_from_summary(self, f: FuncInfo, e: ast.Call, edges) -> Optional[Set]:
+        """Roots of a call result from the callees' return summaries, translated to the caller: 'self' -> what the receiver
+        yields (members of the receiver), ('param', i) -> the roots of the argument bound to it.  None when some callee has
+        no summary (generators, unresolved calls, property objects): the caller falls back to receiver+arguments."""
+        if not edges or any(x.kind not in ('call', 'super') for x in edges):
+            return None
+        if not isinstance(e.func, ast.Attribute) or any(isinstance(a, ast.Starred) for a in e.args) or any(k.arg is None for k in e.keywords):
+            return None
+        out = set()
+        for x in edges:
+            c = x.callee
+            rr = self.return_roots.get(c)
+            if rr is None or c.parent is not None or 'unknown' in rr:
+                return None
+            bound = c.cls is not None and not c.is_staticmethod
+            for r in rr:
+                t = self._translate_root(f, e, c, r, bound)
+                if t is None:
+                    return None
+                out |= t
+        return out
+
+    def _translate_root(self, f, e, c, r, bound) -> Optional[Set]:
+        if r in ('fresh', 'const', 'class', 'module'):
+            return {r}
+        if r == 'self':
+            return self._derive(self._expr_roots(f, e.func.value), e)
+        if isinstance(r, tuple) and r[0] == 'param':
+            i = r[1] - (1 if bound else 0)
+            arg = None
+            if 0 <= i < len(e.args):
+                arg = e.args[i]
+            else:
+                pname = c.params[r[1]] if r[1] < len(c.params) else None
+                for k in e.keywords:
+                    if k.arg == pname:
+                        arg = k.value
+            if arg is None:
+                return {'const'}        # the parameter's default (None / a literal)
+            return set(self._expr_roots(f, arg))
+        if isinstance(r, tuple) and r[0] == 'of':
+            inner = self._translate_root(f, e, c, r[1], bound)
+            if inner is None:
+                return None
+            return {('of', x) for x in inner if x not in ('const',) and not (isinstance(x, tuple) and x[0] == 'of')} | \
+                   {x for x in inner if isinstance(x, tuple) and x[0] == 'of'}
+        return None
 
     # ------------------------------------------------------------------ local writes
     def owners_of(self, e) -> frozenset:
